@@ -27,7 +27,7 @@ ASSUMPTIONS = [
 
 def run_case(case, ctx):
     with ctx.tmpdir() as d:
-        o = xfer.execute(case, ctx, d, monitor_closure=False)
+        o = xfer.execute(case, ctx, d, monitor_closure=False, partial_on_generic=True)
         viols = []
         src_has = set(o.bytes) - o.src_removed
         before = set(o.dst_before)
@@ -35,6 +35,8 @@ def run_case(case, ctx):
         new = (o.requested_expanded & src_has) - before
         both_missing = o.requested_expanded - src_has - before
         affected = False
+        # halves of objects left under their names by the injector's failed uploads: not "arrived"
+        halves = {k for _, k in o.inj.faulted if after.get(k) != o.bytes.get(k)} if o.partial else set()
         if o.result is not None and o.trusting_stale_index:
             pass  # a file-only request trusts the surviving index of a wiped destination (see C12)
         elif o.result is not None:
@@ -52,7 +54,7 @@ def run_case(case, ctx):
                 elif after[oid] != o.bytes[oid]:
                     viols.append(Viol("transferred-wrong-bytes", f"{oid} reported transferred but holds wrong bytes"))
             for oid in sorted(o.requested_expanded):
-                if oid not in after and oid not in fl and oid not in both_missing and oid not in tr:
+                if (oid not in after or oid in halves) and oid not in fl and oid not in both_missing and oid not in tr:
                     viols.append(Viol("absent-unreported", f"requested {oid} absent afterwards, not failed, not missing"))
             if (tr | fl) != new:
                 extra = sorted((tr | fl) - new)
@@ -79,7 +81,7 @@ def run_case(case, ctx):
             viols.append(Viol("source-modified", "the source store changed during the transfer"))
         # wrong bytes must never stay under a name in the destination
         for oid, data in (after.items() if o.result is not None else ()):
-            if oid in o.bytes and data != o.bytes[oid]:
+            if oid in o.bytes and data != o.bytes[oid] and oid not in halves:
                 viols.append(Viol("dest-mismatch", f"destination holds {oid} with wrong bytes"))
                 break
         if o.corrupted & o.requested_expanded - before:
